@@ -512,3 +512,69 @@ Proof.
     apply rmap_forall2 in Ec. clear - Ec. induction Ec as [|cs ncs l l' Hc _ IHc]; constructor; [|exact IHc].
     apply rmap_forall2 in Hc. exact Hc.
 Qed.
+
+(* ---- components, with the identifier behind a named tag ---------------------------------------------------------------- *)
+Definition comp_num (named : list (ident * N)) (c : comp) (nc : ncomp) : Prop :=
+  match c, nc with
+  | CLit v, NLit w => v = w
+  | CRef r, NRef r' => r = r'
+  | CPat p, NPat t => if is_temp_pat p then (t < 0)%Z else (0 < t)%Z /\ al_get ident_eqb named p = Some (Z.to_N t)
+  | _, _ => False
+  end.
+
+Lemma comp_num_mono a b c nc : named_mono a b -> comp_num a c nc -> comp_num b c nc.
+Proof.
+  intros Hm. destruct c as [v|p|r], nc as [w|t|r']; cbn; auto. destruct (is_temp_pat p); [auto|]. intros [H1 H2]. split; [exact H1 | apply Hm, H2].
+Qed.
+
+Lemma number_comp_num st tp c st' tp' nc : number_comp (st, tp) c = ((st', tp'), nc) -> num_inv st -> comp_num (ns_named st') c nc.
+Proof.
+  intros H HI. unfold number_comp in H. destruct c as [v|pid|r]; [inversion H; subst; reflexivity | | inversion H; subst; reflexivity].
+  destruct (is_temp_pat pid) eqn:Et.
+  - inversion H; subst. cbn. rewrite Et. destruct HI as [_ _ H3]. lia.
+  - destruct (al_get ident_eqb (ns_named st) pid) as [n|] eqn:En.
+    + inversion H; subst. cbn. rewrite Et, N2Z.id. split; [destruct (ni_range _ HI _ _ En); lia | exact En].
+    + inversion H; subst. cbn. rewrite Et, N2Z.id. split; [destruct HI as [H1 _ _]; lia|].
+      rewrite (al_get_app_none _ _ _ _ En), (proj2 (ident_eqb_eq pid pid) eq_refl), En. reflexivity.
+Qed.
+
+Lemma number_name_num : forall comps st tp st' tp' ncs,
+  map_acc number_comp (st, tp) comps = ((st', tp'), ncs) -> num_inv st -> Forall2 (comp_num (ns_named st')) comps ncs.
+Proof.
+  induction comps as [|c comps IH]; intros st tp st' tp' ncs H HI; cbn [map_acc] in H.
+  - inversion H; subst. constructor.
+  - destruct (number_comp (st, tp) c) as [[st1 tp1] nc] eqn:Ec.
+    destruct (map_acc number_comp (st1, tp1) comps) as [[st2 tp2] ncs'] eqn:Em. inversion H; subst. clear H.
+    destruct (number_comp_spec _ _ _ _ _ _ Ec HI) as (HI1 & _).
+    destruct (number_name_spec _ _ _ _ _ _ Em HI1) as (_ & Hm2 & _).
+    constructor; [eapply comp_num_mono; [exact Hm2 | eapply number_comp_num; eauto] | eapply IH; eauto].
+Qed.
+
+Theorem gen_pattern_numbers_num rules nrules st :
+  gen_pattern_numbers rules = Ok (nrules, st) -> Forall2 (fun r nr => Forall2 (comp_num (ns_named st)) (r_name r) (nr_name nr)) rules nrules.
+Proof.
+  unfold gen_pattern_numbers.
+  destruct (map_acc number_rule_name {| ns_named := []; ns_next_named := 1; ns_next_temp := 1 |} rules) as [st1 names] eqn:Em.
+  destruct (rmap _ (combine rules names)) as [nrs|e] eqn:Er; cbn [bind]; [|discriminate].
+  intros H; inversion H; subst nrs st1. clear H. apply rmap_forall2 in Er.
+  assert (G : forall rules0 s0 s1 names0, map_acc number_rule_name s0 rules0 = (s1, names0) -> num_inv s0 ->
+            named_mono (ns_named s0) (ns_named s1) /\ num_inv s1 /\
+            Forall2 (fun r x => forall nm', named_mono (ns_named s1) nm' -> Forall2 (comp_num nm') (r_name r) (fst x)) rules0 names0).
+  { induction rules0 as [|r rules0 IH]; intros s0 s1 names0 H0 HI0; cbn [map_acc] in H0.
+    - inversion H0; subst. split; [intros p n Hp; exact Hp|]. split; [exact HI0 | constructor].
+    - unfold number_rule_name at 1 in H0. destruct (map_acc number_comp (s0, []) (r_name r)) as [[sa tpa] nm] eqn:En.
+      destruct (map_acc number_rule_name sa rules0) as [sb namesb] eqn:Emb. inversion H0; subst. clear H0.
+      destruct (number_name_spec _ _ _ _ _ _ En HI0) as (HIa & Hma & _).
+      destruct (IH _ _ _ Emb HIa) as (Hmb & HIb & Hall).
+      split; [intros p n Hp; apply Hmb, Hma, Hp|]. split; [exact HIb|]. constructor; [|exact Hall].
+      intros nm' Hm'. cbn [fst]. pose proof (number_name_num _ _ _ _ _ _ En HI0) as Hnum.
+      clear - Hnum Hm' Hmb. induction Hnum as [|c nc l l' Hc _ IHn]; constructor; [|exact IHn].
+      eapply comp_num_mono; [|exact Hc]. intros p n Hp. apply Hm', Hmb, Hp. }
+  destruct (G _ _ _ _ Em num_inv0) as (_ & _ & Hall).
+  clear Em G. revert nrules Er. induction Hall as [|r x rs xs H0 _ IH]; intros nrules Er; cbn [combine] in Er.
+  - inversion Er. constructor.
+  - inversion Er as [|? nr ? nrs' Hf Hrest]; subst. constructor; [|apply IH; exact Hrest].
+    destruct x as [nm tp]. cbn beta iota in Hf.
+    destruct (rmap (rmap (resolve_cons (ns_named st) tp)) (r_cons r)) as [rc|] eqn:Ec; [|discriminate].
+    cbn [bind] in Hf. inversion Hf; subst nr. cbn. apply (H0 (ns_named st)). intros p n Hp; exact Hp.
+Qed.
